@@ -143,8 +143,17 @@ def helperOps (tag : Str) (t shellT : Table) : List Str → World × Bool × Nat
 def isFdstage (name : Str) : Bool :=
   name = "fdstage".toList ∨ (String.ofList name).endsWith "/fdstage"
 
-/-- a builtin that runs in a forked stage writes to descriptors 1 / 2 of the stage's table -/
-def builtinInChild (w : World) (argv : List Str) (t : Table) (lim : Nat) : World × Nat :=
+/-- `source sN.sh`: the file holds the one line `fdstage sN` (harness convention); the tag of the helper it starts -/
+def srcTag (a : Str) : Option Str :=
+  if a.length > 3 ∧ a.drop (a.length - 3) = ".sh".toList then some (a.take (a.length - 3)) else none
+
+def fdstageCmd (tag : Str) : Command :=
+  { tokens := [([], "fdstage".toList), ([], tag)], redirectsTo := [], redirectFrom := none }
+
+/-- a builtin that runs in a forked stage writes to descriptors 1 / 2 of the stage's table.
+`launch1 t cmd`: the table a program started from a shell whose own table is `t` begins with (`source` inside a forked
+stage starts its commands from the stage's table) -/
+def builtinInChild (launch1 : Table → Command → Option Table) (shellT : Table) (w : World) (argv : List Str) (t : Table) (lim : Nat) : World × Nat :=
   match argv with
   | [n] =>
     if n = "minfd".toList then
@@ -158,6 +167,14 @@ def builtinInChild (w : World) (argv : List Str) (t : Table) (lim : Nat) : World
     if n = "alias".toList then (w.writeTo ((t 2).map (·.obj)) "alias syntax error: usage: alias foo='echo foo'".toList, 1)
     else ({ w with unmodelled := true }, 0)
   | [n, a] =>
+    if n = "source".toList then
+      match srcTag a with
+      | some tag =>
+        (match launch1 t (fdstageCmd tag) with
+         | some t' => helperOps tag t' shellT [] (w.note s!"T:{String.ofList tag}:{showTable t'}", false, 0)
+         | none => ({ w with unmodelled := true }, 0))
+      | none => ({ w with unmodelled := true }, 0)
+    else
     -- defining the alias in a forked stage has no effect on the shell
     if n = "alias".toList ∧ a = "q7=v".toList then (w, 0)
     else if n = "alias".toList then
@@ -169,7 +186,7 @@ def builtinInChild (w : World) (argv : List Str) (t : Table) (lim : Nat) : World
   | _ => ({ w with unmodelled := true }, 0)
 
 /-- play one forked stage; returns the world and the stage's exit status -/
-def playChild (w : World) (shellT : Table) (lim : Nat) : ChildEnd → World × Nat
+def playChild (launch1 : Table → Command → Option Table) (w : World) (shellT : Table) (lim : Nat) : ChildEnd → World × Nat
   | .exec argv t =>
     match argv with
     | name :: tag :: ops =>
@@ -179,15 +196,15 @@ def playChild (w : World) (shellT : Table) (lim : Nat) : ChildEnd → World × N
       else ({ w with unmodelled := true }, 0)
     | _ => ({ w with unmodelled := true }, 0)
   | .notFound _ _ => (w, 127)
-  | .builtin argv t => builtinInChild w argv t lim
+  | .builtin argv t => builtinInChild launch1 shellT w argv t lim
   | .died c => (w, c)
 
-def playChildren (shellT : Table) (lim : Nat) :
+def playChildren (launch1 : Table → Command → Option Table) (shellT : Table) (lim : Nat) :
     List (Nat × ChildEnd × List (Str × Nat)) → World → List (Nat × Nat) → World × List (Nat × Nat)
   | [], w, sts => (w, sts)
   | (i, ce, _) :: rest, w, sts =>
-    let (w1, st) := playChild w shellT lim ce
-    playChildren shellT lim rest w1 (sts ++ [(i, st)])
+    let (w1, st) := playChild launch1 w shellT lim ce
+    playChildren launch1 shellT lim rest w1 (sts ++ [(i, st)])
 
 def cfgOf (base : Cfg) (w : World) : Cfg := { base with lim := w.lim }
 
@@ -242,20 +259,30 @@ def runPlan (L : Launcher) (base : Cfg) (w : World) (p : Plan) (capture : Bool) 
           else
           let w1 := (w.applyOpens pr.opened).writeTo pr.target "alias syntax error: usage: alias foo='echo foo'".toList
           ({ w1 with shell := pr.t, status := 1 }, [])
+      else if c.name = "source".toList ∧ argv.length = 2 ∧ c.redirectsTo = [] ∧ c.redirectFrom = none ∧ !capture then
+        -- `source sN.sh` as the whole line runs in the shell itself: its one command is started from the shell's own table
+        -- (the script file the builtin holds open is close-on-exec)
+        match srcTag (argv.getD 1 []) with
+        | some tag => runPipe cfg [fdstageCmd tag] false
+        | none => ({ w with unmodelled := true }, [])
       else if c.name = "ulimit".toList ∧ argv.length = 3 ∧ argv.getD 1 [] = "-n".toList then
         ({ w with lim := natOfStr (argv.getD 2 []), status := 0 }, [])
       else ({ w with unmodelled := true }, [])
-    else runPipe cfg
-  | _ => runPipe cfg
+    else runPipe cfg p.commands p.background
+  | _ => runPipe cfg p.commands p.background
 where
-  runPipe (cfg : Cfg) : World × List Str :=
-    let l := L.pipeline cfg p.commands capture p.background w.shell w.np
+  runPipe (cfg : Cfg) (cmds : List Command) (bg : Bool) : World × List Str :=
+    let l := L.pipeline cfg cmds capture bg w.shell w.np
     if l.failed then ({ w with shell := l.shell, np := l.np, status := 1 }, [])
     else
       let pc := l.fed.foldl (fun pc (k, text) => setAssoc pc k [text]) w.pipesC
       let w1 : World := { w with shell := l.shell, np := l.np, pipesC := pc }
       let w2 := l.children.foldl (fun w (_, _, ops) => w.applyOpens ops) w1
-      let (w3, sts) := playChildren l.shell cfg.lim l.children w2 []
+      let launch1 : Table → Command → Option Table := fun t cmd =>
+        match (L.pipeline cfg [cmd] false false t l.np).children with
+        | [(_, .exec _ t', _)] => some t'
+        | _ => none
+      let (w3, sts) := playChildren launch1 l.shell cfg.lim l.children w2 []
       let st := if l.lastFailed then 1 else match l.statusFrom with
         | some i => getAssoc sts i 0
         | none => 0
